@@ -4,10 +4,13 @@
    within the constraint.  Every transition is exported for replay (B2). *)
 EXTENDS Placement, Json
 
-CONSTANTS MaxInit, MaxElems, UidBound, NewNames, MergeLines, UidBases
+CONSTANTS MaxInit, MaxElems, UidBound, NewNames, MergeLines, UidBases, WithSortFull
 
 MCKinds == {"COMPU_METHOD", "MEASUREMENT", "UNIT"}
 MCKindRank == [k \in MCKinds |-> CASE k = "COMPU_METHOD" -> 1 [] k = "MEASUREMENT" -> 2 [] k = "UNIT" -> 3]
+
+\* sort.rs emits MEASUREMENT before COMPU_METHOD before UNIT
+MCSortKindOrder == <<"MEASUREMENT", "COMPU_METHOD", "UNIT">>
 
 Slot == MCKinds \cup {"#"}
 InitChild(k, i, base) == [kind |-> IF k = "#" THEN "COMPU_METHOD" ELSE k, name |-> 100 + i, uid |-> base + i, line |-> 10 * i, cmt |-> (k = "#")]
@@ -22,6 +25,7 @@ MCNext ==
     \/ \E k \in MCKinds, nm \in NewNames : PushNew(k, nm)
     \/ \E k \in MCKinds, nm \in NewNames, ln \in MergeLines : MergeIn(k, nm, ln)
     \/ SortNewItems
+    \/ (WithSortFull /\ SortFull(4))
 
 MCSpec == MCInit /\ [][MCNext]_vars
 
